@@ -33,6 +33,7 @@ pub fn gen(group: &str, rng: &mut Rng, n: usize, out: &mut Vec<String>) {
         "paged" => stream::gen_paged(rng, n, out),
         "pagedstop" => stream::gen_pagedstop(rng, n, out),
         "pagedlost" => stream::gen_pagedlost(rng, n, out),
+        "pagedabandon" => stream::gen_pagedabandon(rng, n, out),
         "setup" => net::gen_setup(rng, n, out),
         "tls" => net::gen_tls(rng, n, out),
         "sync" => synclane::gen(rng, n, out),
@@ -51,7 +52,7 @@ pub fn run(lane: &str, args: &[&str]) -> (String, Option<String>) {
         "conn" => conn::run(lane, args),
         "msgid" => conn::run_msgid(args),
         "stream" | "paged" => stream::run(lane, args),
-        "pagedlost" => stream::run("paged", args),
+        "pagedlost" | "pagedabandon" => stream::run("paged", args),
         "setup" | "setupx" => net::run_setup(lane, args),
         "tls" => net::run_tls(args),
         "sync" => synclane::run(args),
